@@ -70,6 +70,9 @@ class CFBinding:
                 "alpha": self.alpha, "tau": self.tau, "epsilon": self.epsilon, "n_jobs": self.n_jobs,
                 "backend": self.backend, "container": self.container}
 
+    def skip(self):
+        return skip_for(self.lp)
+
     # ---- construction -------------------------------------------------
     def policy(self, bin_name="none"):
         LP = _mab_module().LearningPolicy
@@ -358,6 +361,7 @@ class Replay:
         self.samples = []
         self.current = None
         self.pure = {}
+        self.sig_counts = {}
 
     def key(self, state):
         return json.dumps(state, sort_keys=True)
@@ -373,17 +377,24 @@ class Replay:
         return [edge["l"] for edge in self.trace(skey)]
 
     def report(self, clause, detail, skey, label):
-        if len(self.findings) < self.max_findings:
-            trace = self.trace(skey)
-            if self.current is not None and (not trace or trace[-1] is not self.current):
-                trace = trace + [self.current]
-            self.findings.append(Finding(clause=clause, detail=detail, op=label.get("op"), label=label,
-                                         path=[edge["l"] for edge in trace[:-1]], trace=trace,
-                                         binding=self.b.describe()))
+        # repeated occurrences of one kind of mismatch are counted, only the first few are kept,
+        # so that a known finding cannot crowd out a different violation
+        import re as _re
+        tag = _re.search(r"\[(\w+)\]\s*$", detail)
+        sig = (clause, label.get("op"), tag.group(1) if tag else "")
+        self.sig_counts[sig] = self.sig_counts.get(sig, 0) + 1
+        if self.sig_counts[sig] > 3:
+            return
+        trace = self.trace(skey)
+        if self.current is not None and (not trace or trace[-1] is not self.current):
+            trace = trace + [self.current]
+        self.findings.append(Finding(clause=clause, detail=detail, op=label.get("op"), label=label,
+                                     path=[edge["l"] for edge in trace[:-1]], trace=trace,
+                                     binding=self.b.describe()))
 
     def run(self, edges):
         b = self.b
-        skip = skip_for(b.lp)
+        skip = b.skip()
         if not edges:
             return self
         init = edges[0]["s"]
@@ -395,7 +406,7 @@ class Replay:
         for clause, detail in b.compare_state(obj, init):
             self.report(clause, detail, ikey, {"op": "init"})
         for edge in edges:
-            if len(self.findings) >= self.max_findings:
+            if len(self.sig_counts) >= self.max_findings:
                 break
             skey = self.key(edge["s"])
             src = self.objs.get(skey)
@@ -460,7 +471,7 @@ class Replay:
         if outcome not in allowed:
             self.report("reject.class", "invalid call %s raised %s (%s), documented %s" % (kind, outcome, value, allowed),
                         skey, label)
-        after = snapshot(obj, rng=True, skip=skip_for(self.b.lp))
+        after = snapshot(obj, rng=True, skip=self.b.skip())
         if after != before_rng:
             self.report("reject.changed", "rejected call %s (%s) changed the bandit: %s"
                         % (kind, outcome, "; ".join(diff(before_rng, after))), skey, label)
@@ -468,6 +479,8 @@ class Replay:
     # -- C08 C09 C10 and the documented sampler (C01) -----------------------
     def check_query(self, obj, twin, label, value, before, skey, skip):
         b = self.b
+        if hasattr(b, "check_query"):
+            return b.check_query(self, obj, twin, label, value, before, skey, skip)
         m = label["m"]
         op = label["op"]
         arms = list(obj.arms)
@@ -525,15 +538,15 @@ class Replay:
         if outcome != "ok":
             self.report("fresh.exception", "fit on a fresh bandit raised %s" % outcome, skey, label)
             return
-        skip = skip_for(b.lp)
+        skip = b.skip()
         a, c = snapshot(obj, rng=True, skip=skip), snapshot(fresh, rng=True, skip=skip)
         if a != c:
             self.report("fresh.snapshot", "after fit the bandit differs from a fresh bandit fit on the same data: %s"
                         % "; ".join(diff(a, c)), skey, label)
             return
         if edge["t"]["fitted"]:
-            x = copy.deepcopy(obj).predict_expectations()
-            y = copy.deepcopy(fresh).predict_expectations()
+            x = copy.deepcopy(obj).predict_expectations(b.contexts(1))
+            y = copy.deepcopy(fresh).predict_expectations(b.contexts(1))
             if not same(x, y):
                 self.report("fresh.outputs", "expectations after refit %s, fresh bandit %s" % (_fmt(x), _fmt(y)),
                             skey, label)
@@ -561,8 +574,8 @@ class Replay:
                 continue
             if obj._is_initial_fit:
                 base = copy.deepcopy(obj)
-                x = base.predict_expectations()
-                y = clone.predict_expectations()
+                x = base.predict_expectations(b.contexts(1))
+                y = clone.predict_expectations(b.contexts(1))
                 if not same(x, y):
                     self.report("clone.outputs", "%s answers %s, original %s" % (how, _fmt(y), _fmt(x)), tkey, label)
                 if snapshot(obj, rng=True) != ref:
